@@ -58,6 +58,10 @@ type History struct {
 	// has to find a stored object by identity whatever its box is, and Size has to follow. What a search returns for a
 	// box that is not a set of points is not judged, and the structure is not looked at once such a box is in it
 	NaNTail int `json:"nan_tail,omitempty"`
+	// EmptyTail n > 0 (C12 only, round 13): after the history n objects without extent (geom.NewBounds() pointers: no
+	// point, hence infinitely far from everything) are stored one by one, each followed by queries with k = 1, the
+	// number of stored objects, and one more: they are stored objects like the others and fill the last slots
+	EmptyTail int `json:"empty_tail,omitempty"`
 }
 
 // custom comparable object
